@@ -12,7 +12,9 @@ Regenerated from the source on every check (fail-closed):
 * `_transform_space` -- the if/elif chain over the two space strings is
   evaluated for all nine (space_in, space_out) pairs; each must end in
   `v_out = np.matmul|np.dot(v_in, <lattice matrix>)` or `np.copy(v_in)`;
-  emitted as a `match` on which lattice matrix multiplies the row vector.
+  emitted as a `match` on which lattice matrix multiplies the row vector
+  (the matrices of `MATS`: attributes of the lattice, the product
+  `recbase.T @ recbase`, or `reciprocal().metrics`, which may raise).
 * `Miller.cross` -- the `new_fmt = dict(...)` table (a missing key is a
   KeyError) and `Miller.space`.
 """
@@ -245,6 +247,11 @@ MATS = {
     "lattice.recbase.T": "Ok (mtr (l_recbase L))",
     "lattice.metrics": "Ok (l_metrics L)",
     "lattice.metrics.T": "Ok (mtr (l_metrics L))",
+    # reciprocal metric tensor built from the lattice's own reciprocal base (cannot raise)
+    "np.matmul(lattice.recbase.T, lattice.recbase)": "Ok (mmul O (mtr (l_recbase L)) (l_recbase L))",
+    "lattice.recbase.T @ lattice.recbase": "Ok (mmul O (mtr (l_recbase L)) (l_recbase L))",
+    "np.dot(lattice.recbase.T, lattice.recbase)": "Ok (mmul O (mtr (l_recbase L)) (l_recbase L))",
+    # a NEW diffpy Lattice(base=recbase.T): goes through setLatBase's determinant guard, may raise
     "lattice.reciprocal().metrics": "l_rec_metrics L",
     "lattice.reciprocal().metrics.T": "rmap mtr (l_rec_metrics L)",
 }
